@@ -50,7 +50,7 @@ def gen_cases(tier, seed):
                 spec.append({"p": "src/hardlink%d" % hk, "k": "hard", "target": r.choice(files_)})
         if r.random() < 0.4:
             spec.append({"p": "src/sparse", "k": "f", "size": 3 << 20, "seed": r.randrange(1, 1 << 30), "segs": [[0, 5000], [2 << 20, 9000]], "sync": True})
-        pol = r.choice(["none", "none", "cfr-short", "uspace", "fault", "cfr-eof"])
+        pol = r.choice(["none", "none", "cfr-short", "uspace", "fault", "cfr-eof", "vanish"])
         if pol == "cfr-eof" and driver == "parfile":
             pol = "cfr-short"   # the cursor-based loop is only defined for sources that do not shrink
         rules = []
@@ -65,13 +65,25 @@ def gen_cases(tier, seed):
         elif pol == "fault":
             rules.append({"id": "f", "sys": r.choice(["copy_file_range", "openat", "ftruncate", "fchmod", "mkdir"]), "under": "@ROOT@/dst", "nth": r.randint(1, 5),
                           "action": "fault", "errno": r.choice([5, 28])})
+        vanish = None
+        if pol == "vanish":
+            # one regular file (of a size nobody else has) is deleted by the client the moment its Size update arrives
+            cands = [e for e in spec if e["k"] == "f" and not any(h.get("target") == e["p"] for h in spec if h["k"] == "hard")]
+            if cands and upd != "noop":
+                v = r.choice(cands)
+                v["size"] = 4321 + 2 * len(spec)
+                if v.get("segs"):
+                    v["segs"] = None
+                vanish = [v["size"], v["p"]]
+            else:
+                pol = "none"
         sch = dict(r.choice(SCHEDS))
         sch["sched_seed"] = r.randrange(1 << 30)
         deref = pol == "none" and r.random() < 0.2
         if deref:
             spec = [e for e in spec if e["k"] != "l" or (e["k"] == "l" and not e["target"].startswith("no/") and not e["target"].startswith("@"))]
         onecpu = r.random() < 0.08
-        yield {"onecpu": onecpu, "deref": deref, "spec": spec, "driver": driver, "updater": upd, "mode": mode, "bs": bs, "workers": 0 if onecpu or r.random() < 0.05 else r.choice([1, 2, 4, 8]), "policy": pol, "rules": rules,
+        yield {"vanish": vanish, "onecpu": onecpu, "deref": deref, "spec": spec, "driver": driver, "updater": upd, "mode": mode, "bs": bs, "workers": 0 if onecpu or r.random() < 0.05 else r.choice([1, 2, 4, 8]), "policy": pol, "rules": rules,
                "plan": sch, "fs": "ext4"}
 
 
@@ -138,7 +150,7 @@ def run_case(case):
             rules.append(x)
         plan = dict(case["plan"])
         plan.update({"log_mode": "full", "marker_fd": 999, "driver": case["driver"], "rules": rules, "pct_horizon": 400, "max_steps": 2000000})
-        argv = [PROBE_BIN["probe_xcp"], case["driver"], case["updater"], case["mode"], str(case["workers"]), str(case["bs"])] + (["--dereference"] if case.get("deref") else []) + ["--", "src", "dst"]
+        argv = [PROBE_BIN["probe_xcp"], case["driver"], case["updater"], case["mode"], str(case["workers"]), str(case["bs"])] + (["--dereference"] if case.get("deref") else []) + (["--vanish", str(case["vanish"][0]), case["vanish"][1]] if case.get("vanish") else []) + ["--", "src", "dst"]
         if case.get("onecpu"):
             argv = ["taskset", "-c", "2"] + argv      # a process that may use a single CPU (container / affinity mask); workers = 0 then means 'one'
         run = core.run_supervised(sb, argv, plan)
